@@ -35,6 +35,59 @@ def build_state(K, m, labels, spreads):
     return st
 
 
+def chained_state(cm, c):
+    """the state a SECOND repopulation sees inside the main loop: repopulate a first state, then refit it the way the
+    optimise phase does (shallow cluster copies carrying new covariances, new state) and relabel it the way the
+    labelling phase does (shallow state, deep cluster copies, labels assigned) — only public container operations."""
+    first = c["chain"]
+    st0 = build_state(c["K"], c["m"], first["labels"], first["spreads"])
+    pyrandom.seed(first["seed"])
+    st1 = cm.repopulate_empty_clusters(st0)
+    new_clusters = []
+    for k, cl in enumerate(st1.clusters):
+        u = cl.shallow_copy()
+        u.computed_covariance = np.array([[float(c["spreads"][k])]])
+        new_clusters.append(u)
+    st2 = st1.shallow_copy()
+    st2.clusters = new_clusters
+    st3 = st2.shallow_copy()
+    st3.clusters = [cl.deep_copy() for cl in st3.clusters]
+    st3.point_labels = list(c["labels"])
+    return st3
+
+
+def gen_chain(rng):
+    """a first repopulation that succeeds, then a second labelling of the same points with a needy cluster and a
+    different spread ranking."""
+    K = rng.randint(3, 6)
+    m = rng.randint(1, 6)
+    T = K * 4 * m + rng.randint(0, 3 * m)
+
+    def sizes_with_needy():
+        while True:
+            cuts = sorted(rng.randint(0, T) for _ in range(K - 1))
+            sz = [b - a for a, b in zip([0] + cuts, cuts + [T])]
+            sz[rng.randrange(K)] = 0
+            sz[rng.randrange(K)] += T - sum(sz)
+            n_needy = sum(1 for x in sz if x < 2)
+            cap = sum(x // m - 1 for x in sz if x >= 2 * m)
+            if 1 <= n_needy <= cap and sum(1 for x in sz if x >= 2 * m) >= 2:
+                return sz
+    out = {"K": K, "m": m}
+    for key in ("chain", None):
+        sz = sizes_with_needy()
+        labels = [k for k, x in enumerate(sz) for _ in range(x)]
+        rng.shuffle(labels)
+        sp = rng.sample(range(1, 60), K)
+        d = {"labels": labels, "spreads": sp, "seed": rng.randrange(2 ** 31)}
+        if key:
+            out[key] = d
+        else:
+            out.update(d)
+            out["sizes"] = sz
+    return out
+
+
 def gen_random(rng):
     K = rng.randint(2, 12)
     m = rng.randint(1, 25)
@@ -62,6 +115,8 @@ def run(ctx):
         for _ in range(300 if ctx.quick() else 5000):
             K, m, sizes = gen_random(ctx.rng)
             cases.append({"K": K, "m": m, "sizes": sizes})
+        for _ in range(60 if ctx.quick() else 1000):
+            cases.append(gen_chain(ctx.rng))
         ctx.exhaustive = False
     # complete the cases with labels, spreads, seeds
     for c in cases:
@@ -77,7 +132,15 @@ def run(ctx):
     errors = 0
     for c in cases:
         K, m, labels, spreads = c["K"], c["m"], c["labels"], c["spreads"]
-        st = build_state(K, m, labels, spreads)
+        if c.get("chain"):
+            try:
+                st = chained_state(cm, c)
+            except Exception as e:       # the first call is an ordinary case of its own; only the second is judged here
+                ctx.count("chain_first_call_failed:" + type(e).__name__)
+                continue
+            ctx.count("chained_second_calls")
+        else:
+            st = build_state(K, m, labels, spreads)
         before = tu.snapshot_state(st)
         before_ids = (id(st.clusters), [id(x) for x in st.clusters], id(st.point_labels))
         pyrandom.seed(c["seed"])
